@@ -255,6 +255,40 @@ func appendPayload(a int) []byte {
 	return b[:n]
 }
 
+// listPatternMatches: RFC 9051 6.3.9 wildcards with "/" as the hierarchy delimiter; INBOX is case-insensitive.
+func listPatternMatches(pattern, name string) bool {
+	if strings.EqualFold(pattern, "INBOX") {
+		return strings.EqualFold(name, "INBOX")
+	}
+	var m func(p, n string) bool
+	m = func(p, n string) bool {
+		if p == "" {
+			return n == ""
+		}
+		switch p[0] {
+		case '*':
+			for i := 0; i <= len(n); i++ {
+				if m(p[1:], n[i:]) {
+					return true
+				}
+			}
+			return false
+		case '%':
+			for i := 0; i <= len(n); i++ {
+				if m(p[1:], n[i:]) {
+					return true
+				}
+				if i < len(n) && n[i] == '/' {
+					break
+				}
+			}
+			return false
+		}
+		return n != "" && n[0] == p[0] && m(p[1:], n[1:])
+	}
+	return m(pattern, name)
+}
+
 func searchCriteriaFor(a int) *imap.SearchCriteria {
 	switch a % 5 {
 	case 0:
@@ -362,8 +396,15 @@ func (cr *clientRunner) issue(o cop) {
 		if o.B%3 == 1 {
 			opts = &imap.SearchOptions{ReturnMin: true, ReturnMax: true, ReturnCount: true, ReturnAll: true}
 		}
+		lane := imap.UID(0)
 		if o.B >= 4 {
-			cmd = c.UIDSearch(searchCriteriaFor(o.A), opts)
+			crit := searchCriteriaFor(o.A)
+			if cr.uidLane > 0 && o.A%2 == 0 {
+				// a search only this caller issues: the answer can only name this caller's own UID
+				lane = imap.UID(cr.uidLane)
+				crit = &imap.SearchCriteria{UID: []imap.UIDSet{imap.UIDSetNum(lane)}}
+			}
+			cmd = c.UIDSearch(crit, opts)
 			name = "UID SEARCH"
 		} else {
 			cmd = c.Search(searchCriteriaFor(o.A), opts)
@@ -371,6 +412,14 @@ func (cr *clientRunner) issue(o cop) {
 		later(name, func() (error, string) {
 			d, err := cmd.Wait()
 			if err == nil && d != nil {
+				if lane != 0 {
+					for _, u := range d.AllUIDs() {
+						if u != lane {
+							cr.r.Violate("misrouted-data", "UID SEARCH", "%s searched for UID %d only; the result delivered to it names UID %d (all: %v)", cr.tag, lane, u, d.AllUIDs())
+							break
+						}
+					}
+				}
 				return nil, fmt.Sprintf("count=%d", d.Count)
 			}
 			return err, ""
@@ -383,15 +432,26 @@ func (cr *clientRunner) issue(o cop) {
 		case 2:
 			opts = &imap.ListOptions{SelectSubscribed: true, ReturnSubscribed: true, ReturnChildren: true}
 		}
-		cmd := c.List("", []string{"*", "%", "INBOX", "A*", ""}[o.A%5], opts)
+		pattern := []string{"*", "%", "INBOX", "A*", "", "T%", "Ar*e"}[o.A%7]
+		cmd := c.List("", pattern, opts)
+		// whatever else goes on, a mailbox delivered to this LIST matches the pattern this LIST asked for
+		checkName := func(d *imap.ListData) {
+			if d != nil && !listPatternMatches(pattern, d.Mailbox) {
+				cr.r.Violate("misrouted-data", "LIST", "%s listed pattern %q; the data delivered to it names mailbox %q", cr.tag, pattern, d.Mailbox)
+			}
+		}
 		later("LIST", func() (error, string) {
 			switch o.Mode % 3 {
 			case 0:
 				l, err := cmd.Collect()
+				for _, d := range l {
+					checkName(d)
+				}
 				return err, fmt.Sprintf("mailboxes=%d", len(l))
 			case 1:
 				n := 0
-				for cmd.Next() != nil {
+				for d := cmd.Next(); d != nil; d = cmd.Next() {
+					checkName(d)
 					n++
 				}
 				return cmd.Close(), fmt.Sprintf("mailboxes=%d", n)
